@@ -1,7 +1,7 @@
 (* C04 - generated C/C++ codecs are memory-safe, total and free of prior-state influence.
    Statements only; proofs in Codec/WalkerSafeThm.v (model: Codec/WalkerSafe.v), primitive level in Prims/CPrimsThm.v (C14).
    The booleans tpl_* are read from the templates of the working tree by tools/translators/gen_c04.py on every run. *)
-From Verif Require Import Wire Walker WalkerSafe WalkerSafeThm Gen_C04 CPrims CPrimsThm.
+From Verif Require Import Wire Walker WalkerSafe WalkerSafeThm Gen_C04 Gen_C01 CPrims CPrimsThm.
 Local Open Scope nat_scope.
 
 (* the structural facts the model relies on hold of the templates as they are now: every check textually precedes the accesses it
@@ -10,23 +10,67 @@ Theorem c04_template_order : tpl_order_facts = true.
 Proof. reflexivity. Qed.
 Print Assumptions c04_template_order.
 
-(* ---- deserialization: every access in bounds ---- *)
-Theorem c04_des_in_bounds : forall c, cap_ok c -> forall capB t prior buf,
+(* the rendering of the working tree: the three state booleans are read from the templates, everything else is universally
+   quantified (storage capacities, whether the up-front check is compiled in, endianness paths, the static alignment annotation) *)
+Definition tree_cfg (ov : ty -> nat -> nat) (upf le : bool) (al : nat -> bool) : cfg :=
+  {| ov := ov; up_front := upf; little := le; al := al;
+     len_chk_storage := tpl_c_len_check_storage; guarded := tpl_c_ser_guarded; ptr_clamp := tpl_c_des_ptr_clamped |}.
+
+(* ---- deserialization: every access in bounds; `cap_sound` = the length checks use the storage capacity, or the storage is not
+   smaller than the DSDL capacity ---- *)
+Theorem c04_des_in_bounds : forall c, cap_sound c -> forall capB t prior buf,
   wf_ty t = true -> length buf = 8 * capB ->
   forallb (acc_ok capB) (snd (walk_des_safe c t prior buf)) = true.
 Proof. exact des_in_bounds. Qed.
 Print Assumptions c04_des_in_bounds.
 
+(* about the tree as it is: on a tree whose length checks use the storage capacity the premise is `true = true` for EVERY storage
+   capacity function; on the older shape it asks for unreduced capacities (the excluded trigger of F-C-OVR-CAP) *)
+Theorem c04_tree_des_in_bounds : forall ov upf le al,
+  (tpl_c_len_check_storage = true \/ (forall (e : ty) n, n <= ov e n)) -> forall capB t prior buf,
+  wf_ty t = true -> length buf = 8 * capB ->
+  forallb (acc_ok capB) (snd (walk_des_safe (tree_cfg ov upf le al) t prior buf)) = true.
+Proof. intros ov upf le al H. exact (des_in_bounds (tree_cfg ov upf le al) H). Qed.
+Print Assumptions c04_tree_des_in_bounds.
+
+(* ---- every pointer handed to a nested deserializer lies in [buffer, buffer + size] (full statement since 9be3c74) ---- *)
+Theorem c04_des_ptr_in_bounds : forall ov upf le al,
+  (tpl_c_len_check_storage = true \/ (forall (e : ty) n, n <= ov e n)) -> forall capB t prior buf,
+  wf_ty t = true -> length buf = 8 * capB ->
+  forallb (ptr_ok capB) (snd (walk_des_safe (tree_cfg ov upf le al) t prior buf)) = true.
+Proof. intros ov upf le al H capB t prior buf. exact (des_ptr_in_bounds (tree_cfg ov upf le al) H capB t prior buf eq_refl). Qed.
+Print Assumptions c04_des_ptr_in_bounds.
+
 
 (* ---- serialization: every access in bounds, whatever the object holds; a buffer that passes the up-front test is never TOO_SMALL later ---- *)
-Theorem c04_ser_in_bounds : forall c, cap_ok c -> forall t o capB,
+Theorem c04_ser_in_bounds : forall c, cap_sound c -> forall t o capB,
   wf_ty t = true -> align t = 8 -> bmax t <= 8 * capB ->
   forallb (acc_ok capB) (snd (walk_ser_safe c t o capB)) = true /\ fst (walk_ser_safe c t o capB) <> Err ETooSmall.
 Proof. exact ser_in_bounds. Qed.
 Print Assumptions c04_ser_in_bounds.
 
-(* ---- the outcome of a deserialization (value, consumed size, error) is that of the prior-free walker of Codec/Walker.v ---- *)
-Theorem c04_des_obs_eq_walker : forall c t prior buf,
+(* the guarded rendering (C04_ovrcap_fix.patch) needs neither the up-front check nor unreduced capacities *)
+Theorem c04_ser_in_bounds_guarded : forall c t o capB, guarded c = true -> len_chk_storage c = true ->
+  forallb (acc_ok capB) (snd (walk_ser_safe c t o capB)) = true.
+Proof. exact ser_in_bounds_guarded. Qed.
+Print Assumptions c04_ser_in_bounds_guarded.
+
+(* about the tree as it is: in bounds if the tree is guarded (then for every buffer size, every storage capacity, check compiled in
+   or not), otherwise under the premises of c04_ser_in_bounds *)
+Theorem c04_tree_ser_in_bounds : forall ov upf le al t o capB,
+  (tpl_c_ser_guarded && tpl_c_len_check_storage = true \/
+   ((tpl_c_len_check_storage = true \/ (forall (e : ty) n, n <= ov e n)) /\ wf_ty t = true /\ align t = 8 /\ bmax t <= 8 * capB)) ->
+  forallb (acc_ok capB) (snd (walk_ser_safe (tree_cfg ov upf le al) t o capB)) = true.
+Proof.
+  intros ov upf le al t o capB [H|(H1 & H2 & H3 & H4)].
+  - apply andb_prop in H. destruct H as [Hg Hs]. exact (ser_in_bounds_guarded (tree_cfg ov upf le al) t o capB Hg Hs).
+  - exact (proj1 (ser_in_bounds (tree_cfg ov upf le al) H1 t o capB H2 H3 H4)).
+Qed.
+Print Assumptions c04_tree_ser_in_bounds.
+
+(* ---- the outcome of a deserialization (value, consumed size, error) is that of the prior-free walker of Codec/Walker.v whenever
+   the length checks are those of the specification (DSDL capacity, or storage not reduced) ---- *)
+Theorem c04_des_obs_eq_walker : forall c, (forall e n, chk_cap c e n = n) -> forall t prior buf,
   obs_res t (fst (walk_des_safe c t prior buf)) = walk_des ref_prims t buf.
 Proof. exact des_obs_eq_walker. Qed.
 Print Assumptions c04_des_obs_eq_walker.
@@ -51,10 +95,10 @@ Theorem c04_ser_total : forall c t o capB,
 Proof. exact ser_total. Qed.
 Print Assumptions c04_ser_total.
 
-(* ---- pointer formation past the end (F-C-PTR-PAST-END) ---- *)
+(* ---- pointer formation past the end: the rendering before 9be3c74 (F-C-PTR-PAST-END, fixed), documentation only ---- *)
 Theorem c04_des_ptr_in_bounds_refuted :
   exists t prior buf capB, wf_ty t = true /\ length buf = 8 * capB /\
-    forallb (ptr_ok capB) (snd (walk_des_safe (std_cfg false) t prior buf)) = false.
+    forallb (ptr_ok capB) (snd (walk_des_safe old_ptr_cfg t prior buf)) = false.
 Proof. exact des_ptr_in_bounds_refuted. Qed.
 Print Assumptions c04_des_ptr_in_bounds_refuted.
 
@@ -67,6 +111,11 @@ Example c04_ex_des :
         (CStruct [CPrim (VBool true); CVar 77 [CPrim (VInt 9)]; CUnion 5 (CVar 3 [])]) (bits_of_bytes [3; 170; 1; 2; 1; 0; 0]%N)))
   /\ exists v k, obs_res ex_t (fst (walk_des_safe (std_cfg true) ex_t dflt (bits_of_bytes [3; 170; 1; 2; 1; 0; 0]%N))) = Ok (v, k).
 Proof. split; [apply des_prior_indep | vm_compute; eexists; eexists; reflexivity]. Qed.
+(* the translated pieces the model is built from *)
+Theorem c04_bytes_hi_translated : forall n, Gen_C01.filter_bits2bytes_ceil (Z.of_nat n) = Some (Z.of_nat (bytes_hi n)).
+Proof. exact bytes_hi_translated. Qed.
+Print Assumptions c04_bytes_hi_translated.
+
 Example c04_ex_ser : cap_ok (std_cfg true) /\ wf_ty ex_t = true /\ align ex_t = 8 /\ bmax ex_t <= 8 * 8.
 Proof. split; [intros e n; apply le_n|]. vm_compute. repeat split; repeat constructor. Qed.
 
